@@ -40,6 +40,11 @@ CHECKS = {
     text='TLC checks PassBound, HonestStop, AcyclicAgrees and AcyclicTwoPasses over set_value/evaluate histories, build orders and a grid of (iterations, tolerance); the tour executes each transition on the real model: passes counted at inc_iteration_number must not exceed iterations, an early stop requires every cell of the last pass within tolerance, the result must be within q/(1-q) x tolerance of the rationally solved fixed point, acyclic results must equal a non-iterative from-scratch compile, and the projected tracker/cell state must equal the model.',
     note='circular systems are three dyadic linear systems (incl. a cycle through a range) exact at scale 2^16, histories up to depth 3-4; no-data workbooks only',
     ref='§3 C06'),
+ 'C07': dict(
+    technique='Threads.tla: micro-step model of two workloads over per-thread vs shared singleton namespaces, all interleavings checked by TLC (Isolation holds thread-local, counterexample when shared); systematic schedule family executed with real threads under a deterministic baton scheduler at the hook preemption points',
+    text='TLC proves Isolation and StackBalanced over every interleaving of iterative / array-formula / plain workloads with thread-local namespaces and must find a violation with a shared namespace (non-vacuity); the real code is bound by (a) solo results equal to the model, (b) every schedule "second workload runs k of its evaluation events, or to completion, inside the j-th event of the first" (both orders, fresh and warmed threads, plus random schedules) executed deterministically with real threads: results, pass counts and the tracker/context fields seen at each own event must equal the solo run, (c) every public operation (from_file, evaluate, set_value, trim_graph, value_tree_str) as the first pycel action of a new thread.',
+    note='preemption at formula begin/end granularity (the quantifier), not bytecode granularity; two threads',
+    ref='§3 C07'),
  'C08': dict(
     technique='Trim.tla (Engine + trim_graph written like the code) explored exhaustively by TLC per (inputs, outputs) choice; every transition replayed on the real model, an untrimmed twin and a save/load twin',
     text='TLC checks TrimEquiv (every output evaluation after Trim(I,O) returns Fresh of the untrimmed sheet) over all evaluate/set_value histories before and after the trim for sampled (I,O) choices incl. range inputs and buried inputs; the tour executes every transition on the real ExcelCompiler and compares each output with the untrimmed model under the same assignments, directly and after to_file/from_file (yml, json, pkl), plus the projected state incl. the frozen set.',
